@@ -36,7 +36,14 @@ FUNS = [
     ("f0", "f0 = () => 1", "arityerr"), ("f3", "f3 = (a, b, c) => a", "arityerr"),
     ("fd", "fd = do {\n  h = n => if n <= 0 then 0 else 1 + h(n - 1)\n  return h\n}", "num"),
     ("lam", None, "num"),       # anonymous lambda literal inline
+    ("fri", "fri = (x, i, ...r) => [x, i, r]", "any"),      # rest after two required: index must be passed
+    ("fr1", "fr1 = (...r) => r", "any"),
+    ("fxo", "fxo = (x, i?, j?) => [x, i, j]", "any"),
 ]
+# which functions take (item, index): declared from their parameter lists / arities, independently of the code
+TAKES_INDEX = {"f1": False, "f2": True, "fo": True, "fr": True, "fc": False, "fact": False, "fb": False, "fb2": True,
+               "fri": True, "fr1": True, "fxo": True, "abs": False, "floor": False, "typeof": False, "sqrt": False,
+               "ugt": True}
 LISTS = ["[]", "[1]", "[3, 1, 2]", "[0, 1, 2, 3, 4, 5, 6, 7, 8, 9]", "[4, 4, 0.5, -2]", "[1, \"a\", null]",
          "[true, false]", "[[1], [2, 3]]"]
 SCALARS = ["5", "\"s\"", "null", "[1, 2]", "{a: 1}"]
@@ -72,6 +79,21 @@ def definitional_programs():
             # conjunction / disjunction of the per-element results (via map, then all/any)
             out.append(("every=conj", defs, "every(%s, %s)" % (l, f), "all(map(%s, %s))" % (l, f)))
             out.append(("some=disj", defs, "some(%s, %s)" % (l, f), "any(map(%s, %s))" % (l, f)))
+    # the callback receives (item) or (item, index) in list order: explicit element-wise reference
+    for name, src, kind in FUNS:
+        if name not in TAKES_INDEX:
+            continue
+        defs = src + "\n" if src else ""
+        for l in ("[7, 8, 9]", "[5]", "[]", "[3, 1, 2, 0]"):
+            items = [x for x in l.strip("[]").split(", ") if x]
+            if TAKES_INDEX[name]:
+                ref = "[" + ", ".join("%s(%s, %d)" % (name, it, i) for i, it in enumerate(items)) + "]"
+            else:
+                ref = "[" + ", ".join("%s(%s)" % (name, it) for it in items) + "]"
+            out.append(("via=elementwise", defs, "%s via %s" % (l, name), ref))
+            out.append(("map=elementwise", defs, "map(%s, %s)" % (l, name), ref))
+    out.append(("reduce=foldl-rest", "g4 = (a, x, i, ...r) => [a, x, i, r]\n", "reduce([7, 8], g4, 0)", "g4(g4(0, 7, 0), 8, 1)"))
+    out.append(("reduce=foldl-rest", "g5 = (a, x, ...r) => [a, x, r]\n", "reduce([7, 8], g5, 0)", "g5(g5(0, 7, 0), 8, 1)"))
     for l, n in (("[1, 2, 3, 4]", 4), ("[]", 0), ("[5]", 1), ("[2, 2, 2]", 3)):
         items = l.strip("[]").split(", ") if n else []
         acc = "100"
